@@ -79,6 +79,11 @@ def instances(tier: str) -> list[dict]:
                 out.append({"part": "regex", "tree": tree, "naming": naming, "rx": rx, "other": other})
         for pm in partial_family(nodes)[:: (3 if tier == "quick" else 1)]:
             out.append({"part": "partial", "tree": tree, "naming": naming, "pm": pm, "other": others[0]})
+        # lists of partial names (one filter per name: each must match something)
+        pf = partial_family(nodes)
+        lists = [(pf[1], pf[6]), (pf[6], "*zz_nomatch"), ("*zz_nomatch", pf[1]), (pf[2], pf[7], pf[11])] if len(pf) > 11 else [(pf[1], "*zz_nomatch")]
+        for pl in lists[: (3 if tier == "quick" else 4)]:
+            out.append({"part": "partial-list", "tree": tree, "naming": naming, "pms": list(pl), "other": others[0]})
         # batches incl. related modules
         cands = nodes if tier == "thorough" else [n for n in nodes if "." in n]
         for k in (2, 3):
@@ -152,7 +157,7 @@ def work_sequence(inst) -> dict:
 def label_of(i: dict) -> str:
     if i["part"] == "sequence":
         return f"sequence of architectures: regex {i['rx']} {i['verb']} import p"
-    return f"{i['tree']}/{i['naming']} {i['part']} " + " ".join(f"{k}={i[k]}" for k in ("rx", "pm", "other", "sk", "S", "ok", "O") if k in i)
+    return f"{i['tree']}/{i['naming']} {i['part']} " + " ".join(f"{k}={i[k]}" for k in ("rx", "pm", "pms", "other", "sk", "S", "ok", "O") if k in i)
 
 
 def work(inst: dict) -> dict:
@@ -238,6 +243,30 @@ def work(inst: dict) -> dict:
                     same(compact, expanded, "partial-vs-expansion")
                 else:
                     same(compact, expanded, "regex-vs-expansion")
+    elif part == "partial-list":
+        from pytestarch.utils.partial_match_to_regex_converter import convert_partial_match_to_regex
+
+        pms = tuple(inst["pms"])
+        rxs = tuple(convert_partial_match_to_regex(pm) for pm in pms)
+        per_name = [tuple(n for n in nodes if re.match(rx, n)) for rx in rxs]
+        union = tuple(n for n in nodes if any(n in m for m in per_name))
+        other = inst["other"]
+        for verb, direction, exc in SHAPES:
+            for side in ("subject", "object"):
+                if side == "subject":
+                    compact = RuleSpec(verb, direction, exc, "partial", pms, "named", (other,))
+                    rxspec = RuleSpec(verb, direction, exc, "regexlist", rxs, "named", (other,))
+                    expanded = RuleSpec(verb, direction, exc, "named", union, "named", (other,))
+                else:
+                    compact = RuleSpec(verb, direction, exc, "named", (other,), "partial", pms)
+                    rxspec = RuleSpec(verb, direction, exc, "named", (other,), "regexlist", rxs)
+                    expanded = RuleSpec(verb, direction, exc, "named", (other,), "named", union)
+                if not all(per_name):
+                    # one of the listed partial names matches nothing: a no-match error, never a verdict
+                    always_nomatch(compact)
+                else:
+                    same(compact, rxspec, "partial-list-vs-regex-list")
+                    same(compact, expanded, "partial-list-vs-expansion")
     elif part == "batch-subjects":
         for verb, direction, exc in SHAPES:
             batch = RuleSpec(verb, direction, exc, inst["sk"], tuple(inst["S"]), inst["ok"], tuple(inst["O"]))
